@@ -1,21 +1,21 @@
 import Vflow.Model.Flow
 /-!
-# Lemmas about the template cache (an association list keyed by the FNV-1 hash)
+# Lemmas about the template cache (an association list keyed by (shard, key text)); the key determines the pair
 -/
 namespace Vflow
 
 /-- lookup by raw key -/
-def Cache.lookupKey (c : Cache) (k : Nat) : Option Template := (c.find? (fun e => e.1 = k)).map (·.2)
+def Cache.lookupKey (c : Cache) (k : CKey) : Option Template := (c.find? (fun e => e.1 = k)).map (·.2)
 
 theorem Cache.lookup_eq (c : Cache) (a : Bytes) (id : Nat) : c.lookup a id = c.lookupKey (cacheKey a id) := rfl
 
 /-- insert by raw key -/
-def Cache.insertKey (c : Cache) (k : Nat) (t : Template) : Cache := (k, t) :: c.filter (fun e => e.1 ≠ k)
+def Cache.insertKey (c : Cache) (k : CKey) (t : Template) : Cache := (k, t) :: c.filter (fun e => e.1 ≠ k)
 
 theorem Cache.insert_eq (c : Cache) (a : Bytes) (id : Nat) (t : Template) :
     c.insert a id t = c.insertKey (cacheKey a id) t := rfl
 
-theorem find?_filter_ne {c : Cache} {k k' : Nat} (h : k' ≠ k) :
+theorem find?_filter_ne {c : Cache} {k k' : CKey} (h : k' ≠ k) :
     (c.filter (fun e => e.1 ≠ k)).find? (fun e => e.1 = k') = c.find? (fun e => e.1 = k') := by
   rw [List.find?_filter]
   congr 1
@@ -25,7 +25,7 @@ theorem find?_filter_ne {c : Cache} {k k' : Nat} (h : k' ≠ k) :
   · simp [he]
 
 /-- the map law of the cache at the key level -/
-theorem Cache.lookupKey_insertKey (c : Cache) (k k' : Nat) (t : Template) :
+theorem Cache.lookupKey_insertKey (c : Cache) (k k' : CKey) (t : Template) :
     (c.insertKey k t).lookupKey k' = if k' = k then some t else c.lookupKey k' := by
   unfold Cache.lookupKey Cache.insertKey
   by_cases h : k' = k
@@ -39,5 +39,65 @@ theorem Cache.lookup_insert (c : Cache) (a a' : Bytes) (id id' : Nat) (t : Templ
     (c.insert a id t).lookup a' id' =
       if cacheKey a' id' = cacheKey a id then some t else c.lookup a' id' := by
   rw [Cache.insert_eq, Cache.lookup_eq, Cache.lookup_eq, Cache.lookupKey_insertKey]
+
+/-! ## The key determines the (exporter, template id) pair -/
+
+theorem hexLower_inj {m n : Nat} (hm : m < 16) (hn : n < 16) (h : hexLower m = hexLower n) : m = n := by
+  have : ∀ m : Fin 16, ∀ n : Fin 16, hexLower m.1 = hexLower n.1 → m = n := by decide
+  have := this ⟨m, hm⟩ ⟨n, hn⟩ h
+  exact Fin.mk.inj this
+
+theorem hexBytes_inj : ∀ (a b : Bytes), hexBytes a = hexBytes b → a = b
+  | [], [], _ => rfl
+  | [], _ :: _, h => by simp [hexBytes] at h
+  | _ :: _, [], h => by simp [hexBytes] at h
+  | x :: xs, y :: ys, h => by
+    simp only [hexBytes, List.cons.injEq] at h
+    have h1 := hexLower_inj (Nat.div_lt_of_lt_mul (by have := x.toNat_lt; omega))
+      (Nat.div_lt_of_lt_mul (by have := y.toNat_lt; omega)) h.1
+    have h2 := hexLower_inj (Nat.mod_lt _ (by decide)) (Nat.mod_lt _ (by decide)) h.2.1
+    have hxy : x = y := by
+      apply UInt8.toNat_inj.mp
+      omega
+    rw [hxy, hexBytes_inj xs ys h.2.2]
+
+theorem encBE_length : ∀ (n v : Nat), (encBE n v).length = n
+  | 0, _ => rfl
+  | n+1, v => by simp [encBE, encBE_length n]
+
+/-- equal key octets: the same exporter address and the same 16-bit template id -/
+theorem keyOctets_inj {a a' : Bytes} {id id' : Nat} (h : keyOctets a id = keyOctets a' id') :
+    a = a' ∧ encBE 2 id = encBE 2 id' := by
+  unfold keyOctets at h
+  have hl := congrArg List.length h
+  simp only [List.length_append, encBE_length] at hl
+  exact List.append_inj h (by omega)
+
+theorem encBE2_inj {id id' : Nat} (hid : id < 65536) (hid' : id' < 65536) (h : encBE 2 id = encBE 2 id') : id = id' := by
+  simp only [encBE, List.nil_append, List.cons_append, List.cons.injEq, and_true] at h
+  have h1 := congrArg UInt8.toNat h.1
+  have h2 := congrArg UInt8.toNat h.2
+  simp only [UInt8.toNat_ofNat'] at h1 h2
+  omega
+
+/-- **the key text determines the exporter address** (whatever the ids) -/
+theorem keyText_addr {a a' : Bytes} {id id' : Nat} (h : keyText a id = keyText a' id') : a = a' :=
+  (keyOctets_inj (hexBytes_inj _ _ h)).1
+
+/-- **the key text determines the pair**: template ids are 16-bit (`uint16` in the code) -/
+theorem keyText_inj {a a' : Bytes} {id id' : Nat} (hid : id < 65536) (hid' : id' < 65536)
+    (h : keyText a id = keyText a' id') : a = a' ∧ id = id' :=
+  have := keyOctets_inj (hexBytes_inj _ _ h)
+  ⟨this.1, encBE2_inj hid hid' this.2⟩
+
+/-- **the cache key determines the pair** — the statement that was false of the hash-only key (K1) -/
+theorem cacheKey_inj {a a' : Bytes} {id id' : Nat} (hid : id < 65536) (hid' : id' < 65536)
+    (h : cacheKey a id = cacheKey a' id') : a = a' ∧ id = id' :=
+  keyText_inj hid hid' (congrArg Prod.snd h)
+
+theorem cacheKey_addr {a a' : Bytes} {id id' : Nat} (h : cacheKey a id = cacheKey a' id') : a = a' :=
+  keyText_addr (congrArg Prod.snd h)
+
+theorem shardOf_lt (a : Bytes) (id : Nat) : shardOf a id < 32 := Nat.mod_lt _ (by decide)
 
 end Vflow
